@@ -1580,7 +1580,7 @@ def spatial_derivatives(
                             result,
                             avg_kernel,
                             dim=dim,
-                            padding=len(avg_kernel) // 2,
+                            padding=PaddingMode.REPLICATE,
                         )
                 fd_spacing = spacing[:, sdim]
                 result = finite_differences(result, sdim, mode=fd_mode, spacing=fd_spacing)
